@@ -27,7 +27,7 @@ GRACE, SHUT = 0.4, 0.4
 HORIZON = 5.0
 
 KINDS = ["idle_keepalive", "partial_head", "inflight_short", "pipelined_behind_inflight", "pipelined_second_inflight", "h2_two_inflight", "inflight_long", "stuck_forever", "unread_response", "unread_response_halfclosed", "h2_open_stream",
-         "h2_idle", "h2_fresh", "websocket_open"]
+         "h2_idle", "h2_fresh", "h2_reset_idle", "websocket_open"]
 
 
 def gen(rng, tier):
@@ -259,7 +259,7 @@ def run_one(case, tally):
     }
     if case.get("ls"):
         apps["lifespan"] = apps["lifespan"] + ([["sleep", 0.15]] if case["ls"] == "lingers" else [["yield", 2]])
-    cfg = {"graceful_timeout": GRACE if kind not in ("inflight_short", "pipelined_behind_inflight", "pipelined_second_inflight", "h2_two_inflight", "burst_across_trigger", "h2_fresh") else 3.0, "shutdown_timeout": SHUT, "keep_alive_timeout": 30.0}
+    cfg = {"graceful_timeout": GRACE if kind not in ("inflight_short", "pipelined_behind_inflight", "pipelined_second_inflight", "h2_two_inflight", "burst_across_trigger", "h2_fresh", "h2_reset_idle") else 3.0, "shutdown_timeout": SHUT, "keep_alive_timeout": 30.0}
     if case["trigger"] == "max_requests":
         cfg["max_requests"] = 2
     h = ServeHarness(be, cfg, apps)
@@ -303,11 +303,14 @@ def run_one(case, tally):
                 s.sendall(client_preface(fb, {}) +
                           fb.headers(1, [(b":method", b"GET"), (b":scheme", b"http"), (b":path", b"/short"), (b":authority", b"h")], end_stream=True) +
                           fb.headers(3, [(b":method", b"GET"), (b":scheme", b"http"), (b":path", b"/short2"), (b":authority", b"h")], end_stream=True))
-            elif kind in ("h2_open_stream", "h2_idle", "h2_fresh"):
+            elif kind in ("h2_open_stream", "h2_idle", "h2_fresh", "h2_reset_idle"):
                 fb = FrameBuilder()
                 fbs.append(fb)
                 s.sendall(client_preface(fb, {}))
-                if kind == "h2_fresh":
+                if kind == "h2_reset_idle":
+                    # its only request the client gives up on (RST_STREAM) and keeps the connection: no stream is open, it is idle
+                    s.sendall(fb.headers(1, [(b":method", b"GET"), (b":scheme", b"http"), (b":path", b"/stuck"), (b":authority", b"h")], end_stream=True))
+                elif kind == "h2_fresh":
                     pass  # (prior knowledge, preface and SETTINGS sent, no request yet: as idle as a connection can be)
                 elif kind == "h2_open_stream":
                     s.sendall(fb.headers(1, [(b":method", b"GET"), (b":scheme", b"http"), (b":path", b"/stuck"), (b":authority", b"h")], end_stream=True))
@@ -317,7 +320,7 @@ def run_one(case, tally):
                 s.sendall(ws.handshake(path=b"/ws%d" % i))
                 recv_until(s, b"\r\n\r\n", timeout=1.0)
         # let the server get every request going
-        want_apps = {"inflight_short": "/short", "pipelined_behind_inflight": "/short", "pipelined_second_inflight": "/short", "h2_two_inflight": "/short2", "inflight_long": "/long", "stuck_forever": "/stuck", "unread_response": "/big", "unread_response_halfclosed": "/big", "h2_open_stream": "/stuck"}.get(kind)
+        want_apps = {"inflight_short": "/short", "pipelined_behind_inflight": "/short", "pipelined_second_inflight": "/short", "h2_two_inflight": "/short2", "inflight_long": "/long", "stuck_forever": "/stuck", "unread_response": "/big", "unread_response_halfclosed": "/big", "h2_open_stream": "/stuck", "h2_reset_idle": "/stuck"}.get(kind)
         if want_apps:
             end = time.monotonic() + 2.0
             while time.monotonic() < end and sum(1 for e in tr.events if e[2] == "app" and e[3] == "start" and e[4]["scope"].get("path") == want_apps) < len(socks):
@@ -329,7 +332,11 @@ def run_one(case, tally):
             for s in socks:
                 s.shutdown(socket.SHUT_WR)
             time.sleep(0.2)
-        if kind in ("h2_idle", "h2_fresh"):
+        if kind == "h2_reset_idle":
+            for s, fb in zip(socks, fbs):
+                s.sendall(fb.rst(1, 8))
+            time.sleep(0.2)
+        if kind in ("h2_idle", "h2_fresh", "h2_reset_idle"):
             for s in socks:
                 s.settimeout(0.5)
                 try:
@@ -337,7 +344,7 @@ def run_one(case, tally):
                 except OSError:
                     pass
         witness = None
-        if kind in ("inflight_short", "inflight_long", "h2_idle", "h2_fresh", "h2_open_stream") and case["trigger"] == "callable":
+        if kind in ("inflight_short", "inflight_long", "h2_idle", "h2_fresh", "h2_reset_idle", "h2_open_stream") and case["trigger"] == "callable":
             # an idle keep-alive connection whose closure tells the client, causally, that the worker has begun its shutdown
             witness = h.connect()
             if witness is not None:
@@ -363,7 +370,7 @@ def run_one(case, tally):
             d, eof = recv_all(witness, timeout=2.0)
             witness.close()
             seen["witness_closed"] = eof
-            if eof and kind == "h2_fresh":
+            if eof and kind in ("h2_fresh", "h2_reset_idle"):
                 # the witness (an idle HTTP/1.1 connection) has been closed: the idle connections are being closed *now*, three seconds
                 # of grace period are still ahead.  A fresh HTTP/2 connection is idle too: its end has to come with the witness's, not
                 # with the end of the grace period
@@ -524,11 +531,11 @@ def run_one(case, tally):
         if not all(seen.get("idle_closed", [False])):
             findings.append({"clause": "idle-closed", "sig": "C15.idle-connection-kept-open/%s" % be, "backend": be,
                              "detail": "idle keep-alive connections after the trigger: closed=%r" % seen.get("idle_closed")})
-    if kind == "h2_fresh" and "fresh_closed" in seen:
+    if kind in ("h2_fresh", "h2_reset_idle") and "fresh_closed" in seen:
         tally.clause("idle-closed")
         if not all(seen["fresh_closed"]):
-            findings.append({"clause": "idle-closed", "sig": "C15.idle-connection-kept-open/%s/h2-fresh" % be, "backend": be,
-                             "detail": "HTTP/2 connections that had sent their preface and nothing else: a second after the server had closed an idle HTTP/1.1 "
+            findings.append({"clause": "idle-closed", "sig": "C15.idle-connection-kept-open/%s/%s" % (be, kind.replace("_", "-")), "backend": be,
+                             "detail": "HTTP/2 connections without an open stream (nothing but the preface sent / the only request reset by the client): a second after the server had closed an idle HTTP/1.1 "
                                        "connection (3 s of grace period still ahead) they were still open: closed=%r" % seen["fresh_closed"]})
     if kind in ("inflight_short", "pipelined_behind_inflight", "pipelined_second_inflight", "h2_two_inflight"):
         tally.clause("inflight-delivered")
